@@ -292,7 +292,7 @@ fn model_batch(ctx: &mut Ctx, runs: &[(Vec<u8>, usize, Vec<Op>, Config, bool)], 
 }
 
 fn cut(s: &str) -> String {
-    if s.len() > 700 { format!("{}…{}", &s[..450], &s[s.len() - 200..]) } else { s.to_string() }
+    crate::util::shorten(s, 450, 200)
 }
 
 // ------------------------------------------------------------------------------------------------
